@@ -210,7 +210,7 @@ def run_nested(op1, shape, a, b, c, d, boost_code):
     else:
         q = o[1](X, L[3][1]())
         desc = "%s(%s, %s)" % (o[0], xd, L[3][0])
-    r = check_topn(q, desc, ks=(1, 2), fast=not THOROUGH)
+    r = check_topn(q, desc, ks=(1, 2), fast=True)
     return r if isinstance(r, tuple) else (r, False)
 
 
@@ -218,7 +218,7 @@ def _mk_nested(op1):
     name = "c05_nest_" + "".join(ch if ch.isalnum() else "_" for ch in C.OPS[op1][0]).strip("_").lower()
 
     @h(bounds="%s(X, d) and %s(d, X) with X in {Or(a,b,c^w) default and array matcher, And(a,Or(b,c^w)), Or(a,And(b,c^w))}, a,b,c,d over 4 leaves "
-              "(quick: 3), w in {1, 0.5}; k in 1..2; layouts/weightings/variants as above (quick: the two multi-segment layouts, plain and terms=True)" % (C.OPS[op1][0], C.OPS[op1][0]),
+              "(quick: 3), w in {1, 0.5}; k in 1..2; layouts/weightings/variants as above (nested: the multi-segment layouts, plain and terms=True only)" % (C.OPS[op1][0], C.OPS[op1][0]),
        funcs=FUNCS + ["whoosh.matching.combo.ArrayUnionMatcher", "whoosh.matching.wrappers.FilterMatcher"],
        examples=[dict(shape=0, a=0, b=1, c=2, d=3, bc=1), dict(shape=5, a=3, b=2, c=1, d=0, bc=0)], outside=OUT,
        timeout=dict(quick=900, thorough=3000))
